@@ -719,6 +719,100 @@ def r10j(rep, F):
     rep.require_count('R10j', 'setDistanceFunction overrides', n, 2)
 
 
+def r10k(rep, F):
+    rep.rule('R10k', 'GreedyKCenters::kcenters delivers what GNAT::split consumes: interpreted over abstract data (every sequence of 1..4 '
+                     'points from {0, 1, 2, 5} on a line, distance |a - b|, k = 1..3, every choice of the random first centre) the routine '
+                     'returns between 1 and k centres that are valid, pairwise distinct indices, and for every point j and every returned '
+                     'centre i the matrix entry dists(j, i) is the distance between data[j] and data[centers[i]] -- split() assigns points '
+                     'to pivots and fills the range tables from exactly these entries')
+    from engine import obj
+    import itertools
+    fs = [g for g in F.by_name.get('ompl::GreedyKCenters::kcenters', []) if g.body]
+    if not fs:
+        raise AnalysisBroken('R10k: GreedyKCenters::kcenters has no instantiation in the analysed units')
+    f = fs[0]
+    bad = None
+    runs = 0
+    for nlen in (1, 2, 3, 4):
+        for data in itertools.product((0, 1, 2, 5), repeat=nlen):
+            for k in (1, 2, 3):
+                for first in range(nlen):
+                    mat = obj.Ref(cells={}, rows=0, cols=0)
+
+                    def call(it, n, env, first=first, mat=mat):
+                        c = n.get('callee') or ''
+                        short = c.split('::')[-1]
+                        a = args(it.fn, n) if n['k'] == 'CXXMemberCallExpr' else n['ch']
+                        if n['k'] == 'CXXOperatorCallExpr' and n.get('oop') == '()':
+                            o = it.ev(n['ch'][0], env)
+                            if o == ('distfun',):
+                                x, y = it.ev(n['ch'][1], env), it.ev(n['ch'][2], env)
+                                return abs(x - y)
+                            if isinstance(o, dict) and 'cells' in o:
+                                r_, c_ = it.ev(n['ch'][1], env), it.ev(n['ch'][2], env)
+                                if (r_, c_) not in o['cells']:
+                                    raise AnalysisBroken('R10k: read of the unset matrix entry (%s, %s)' % (r_, c_))
+                                return o['cells'][(r_, c_)]
+                        if short == 'uniformInt':
+                            return first
+                        if short in ('rows', 'cols') and n['k'] == 'CXXMemberCallExpr':
+                            return it.ev(n['ch'][0], env)[short]
+                        if short == 'resize' and n['k'] == 'CXXMemberCallExpr' and isinstance(it.ev(n['ch'][0], env), dict):
+                            o = it.ev(n['ch'][0], env)
+                            o['rows'], o['cols'] = it.ev(a[0], env), it.ev(a[1], env)
+                            return None
+                        if c.endswith('numeric_limits::infinity'):
+                            return float('inf')
+                        if c.endswith('numeric_limits::epsilon'):
+                            return 1e-9
+                        if c in ('std::max', 'std::min'):
+                            av = [it.ev(x, env) for x in a]
+                            return max(av) if c == 'std::max' else min(av)
+                        return NotImplemented
+
+                    def construct(it, n, av):
+                        ty = n.get('ty') or ''
+                        if 'vector' in ty and len(av) >= 2 and isinstance(av[0], int):
+                            return [av[1]] * av[0]
+                        return NotImplemented
+
+                    class KC(obj.ObjInterp):
+                        def store(self, lhs, v, env):
+                            if lhs is not None and lhs['k'] == 'CXXOperatorCallExpr' and lhs.get('oop') == '()':
+                                o = self.ev(lhs['ch'][0], env)
+                                if isinstance(o, dict) and 'cells' in o:
+                                    o['cells'][(self.ev(lhs['ch'][1], env), self.ev(lhs['ch'][2], env))] = v
+                                    return
+                            return super().store(lhs, v, env)
+
+                        def ev(self, nid, env):
+                            n_ = self.fn.nodes.get(nid)
+                            if n_ is not None and n_['k'] == 'UnaryOperator' and n_.get('op') == '-':
+                                return -self.ev(n_['ch'][0], env)
+                            return super().ev(nid, env)
+                    it = KC(F, f, this=obj.Ref(distFun_=('distfun',), rng_=obj.Ref()), hooks={'call': call, 'construct': construct})
+                    centers = []
+                    names = ['%s#%d' % (p_['name'], p_['did']) for p_ in f.params]
+                    it.run(dict(zip(names, [list(data), k, centers, mat])))
+                    runs += 1
+                    msg = None
+                    if not (1 <= len(centers) <= k):
+                        msg = '%d centres are returned for k = %d' % (len(centers), k)
+                    elif len(set(centers)) != len(centers) or any(not (0 <= c_ < nlen) for c_ in centers):
+                        msg = 'the centres %s are not distinct valid indices' % centers
+                    else:
+                        for j in range(nlen):
+                            for i, c_ in enumerate(centers):
+                                got = mat['cells'].get((j, i), 'unset')
+                                if got != abs(data[j] - data[c_]):
+                                    msg = msg or 'dists(%d, %d) is %s but the distance between data[%d] and data[centers[%d]] is %s' % (
+                                        j, i, got, j, i, abs(data[j] - data[c_]))
+                    if msg and bad is None:
+                        bad = 'data %s, k = %d, first centre %d: %s' % (list(data), k, first, msg)
+    rep.add('R10k', label(f), 'centres-and-distance-matrix', bad is None, f.loc, bad or 'postcondition holds on %d abstract runs' % runs)
+    rep.require_count('R10k', 'abstract k-centres runs', runs, 500)
+
+
 def run(rep):
     F = facts.load_units(INST)
     rep.units.update(INST)
@@ -733,3 +827,4 @@ def run(rep):
     r10f(rep, F)
     r10g(rep, F)
     r10j(rep, F)
+    r10k(rep, F)
